@@ -74,6 +74,11 @@ def synth_arg(name, ann, variant):
 async def sweep_method(loop, net, mname, variant):
     """Call one public method on a fresh connected client; return (sent ids, subscribed class names, outcome)."""
     from aioesphomeapi import api_pb2 as pb
+    # variants 5 / 6: the device answers nothing at all; the call runs into its own time-out / is cancelled by its caller
+    silent = variant in (5, 6)
+    cancel_it = variant in (1, 6)
+    if silent:
+        variant = 1
     cli, tr = await simnet.connected_client(loop, net, api=(1, 10 if variant else 0))
     variant_cb = variant
     loop.set_exception_handler(lambda l, ctx: None)      # a failing application handler is reported to the loop: not what is observed here
@@ -108,11 +113,11 @@ async def sweep_method(loop, net, mname, variant):
             for m in (pb.BluetoothGATTNotifyResponse(address=1, handle=1), pb.BluetoothGATTReadResponse(address=1, handle=1),
                       pb.BluetoothGATTWriteResponse(address=1, handle=1),
                       pb.BluetoothDeviceConnectionResponse(address=1, connected=True, mtu=23)):
-                if not task.done():
+                if not task.done() and not silent:
                     tr.feed(simnet.plain_msg(m))
                     await simnet.drain(loop)
             # an unanswered request runs into its own time-out (what is sent on that path counts too); variant 1 is cancelled instead
-            if not task.done() and variant != 1:
+            if not task.done() and not cancel_it:
                 for _ in range(12):
                     nt = loop.next_timer()
                     if task.done() or nt is None:
@@ -342,7 +347,9 @@ def run(rep, tier, seed):
         if mname in skip:
             continue
         has_coro_cb = "Coroutine" in str(inspect.signature(getattr(APIClient, mname)))
-        for variant in ((0, 1, 2, 3, 4) if has_coro_cb else (0, 1)):     # 2 / 3 / 4: asynchronous handlers return nothing / raise / are still running at unsubscribe
+        is_async = inspect.iscoroutinefunction(getattr(APIClient, mname))
+        # 2 / 3 / 4: asynchronous handlers return nothing / raise / are still running at unsubscribe; 5 / 6: a silent device (time-out / cancelled)
+        for variant in ((0, 1, 2, 3, 4) if has_coro_cb else (0, 1)) + ((5, 6) if is_async else ()):
             def go(loop, mname=mname, variant=variant):
                 net = simnet.Net(loop)
 
